@@ -2,8 +2,8 @@
 (* Binding of the two specifications: behaviours of the line-level model MultiEventXCode (clock as under the     *)
 (* deterministic scheduler, DetTime) are projected to the observable events of the contract - begin and return    *)
 (* of every call, actions run - and validated by Trace_MultiEventX like recordings of the real class.  The        *)
-(* repaired design must be accepted without deviations; the model of the code as it stands must need exactly      *)
-(* the named deviations.  One behaviour per reachable end state (VIEW hides the history).                          *)
+(* repaired design must be accepted without deviations; the model of the code as it stood before the repairs    *)
+(* must need exactly the named deviations.  One behaviour per order of observable events (VIEW).                   *)
 EXTENDS MultiEventXCode, Json
 VARIABLE hist
 
